@@ -8,7 +8,7 @@ KINDS = ["t4", "t6", "un"]
 
 
 def gen_scenario(rng, flavour=None):
-    fl = flavour or rng.choice(["servers", "servers", "servers", "ipc", "connect", "mixed"])
+    fl = flavour or rng.choice(["servers", "servers", "servers", "ipc", "ipcbig", "connect", "mixed"])
     L = []
     meta = {"drained": set(), "fl": fl}
     if fl in ("servers", "mixed"):
@@ -50,6 +50,19 @@ def gen_scenario(rng, flavour=None):
         k = rng.choice([1, 2, 5, 8, 9, 10, 12, 17, 20, 30])
         kinds = "".join(rng.choice("tpu") for _ in range(k))
         L.append(f"ipc {kinds} {rng.choice(['late', 'late', 'imm', '2', '3', '5'])}")
+    if fl == "ipcbig":
+        # uv_write2 carrying a handle AND a payload that needs several syscalls: short transfers scripted per
+        # syscall on the sending descriptor (cap in bytes, -11 = EAGAIN, 0 = whatever the kernel takes), or a
+        # payload larger than the socket buffer so the kernel itself produces the partial sends
+        k = rng.choice([1, 2, 3, 5, 9, 12])
+        kinds = "".join(rng.choice("tpu") for _ in range(k))
+        if rng.chance(1, 5):
+            payload, caps = rng.choice([300000, 700000]), []
+            kinds = kinds[:3]
+        else:
+            payload = rng.choice([1, 2, 7, 64, 1000, 70000])
+            caps = [rng.choice([1, 1, 2, 3, payload // 2 + 1, payload, -11, -11, 0]) for _ in range(rng.range(0, 4 * k))]
+        L.append(f"ipcbig {kinds} {payload} " + " ".join(map(str, caps)))
     if fl in ("connect", "mixed") or rng.chance(1, 6):
         L.append("wcheck")
     L.append("end")
@@ -153,6 +166,33 @@ def sim_monitor(prog, meta, out):
                 return ("connect-ok-not-established", f"client {c}: status 0 but the server never got it")
     if not any(o.startswith("loop-alive=0 close=0") for o in out):
         return ("loop-not-clean", f"requests/handles left after everything was closed: {out[-1] if out else ''}")
+    # --- IPC with payloads: one handle per sending write, arriving with the first byte of that write
+    big = next((l for l in prog if l.startswith("ipcbig")), None)
+    if big:
+        kinds = big.split()[1]; payload = int(big.split()[2]); gots = 0
+        if any(kv(o)["r"] != "0" for o in out if o.startswith("ipcsend")): return ("ipc-send-refused", "uv_write2 with a handle on an IPC pipe failed")
+        carried = {}
+        for o in out:
+            w = o.split(); d = kv(o)
+            if w[0] == "tx":
+                if int(d["ret"]) >= 0 and d["handle"] != "-":
+                    carried[d["req"]] = carried.get(d["req"], 0) + 1
+                    if d["handle"] != d["req"]: return ("ipc-wrong-handle-attached", f"request {d['req']} sent the handle of request {d['handle']}: {o}")
+                    if carried[d["req"]] > 1: return ("send-handle-more-than-once", f"the descriptor of uv_write2 #{d['req']} rode on {carried[d['req']]} successful syscalls: {o}")
+            if w[0] == "bigread" and "bytes" in d:
+                b = int(d["bytes"]); exp = min(len(kinds), (b + payload - 1) // payload)
+                if int(d["pc"]) != exp: return ("ipc-handles-per-write", f"after {b} payload bytes ({payload} per uv_write2) {d['pc']} handles are pending, expected {exp}")
+            if w[0] == "bigread" and "err" in d: return ("ipc-error", o)
+            if w[0] == "ipcbigread" and (int(d["bytes"]) != payload * len(kinds) or int(d["pc"]) != len(kinds) or d["baddata"] != "0" or int(d["wcbs"]) != len(kinds)):
+                return ("ipc-big-totals", f"{o} for {len(kinds)} writes of {payload} bytes")
+            if w[0] == "ipcgot":
+                if d["r"] != "0" or d["usable"] != "1": return ("ipc-accept-failed", o)
+                if int(d["from"]) != gots or d["type"] != kinds[gots]: return ("ipc-order", f"claim {gots} yielded the handle sent as #{d['from']} type {d['type']}")
+                gots += 1
+            if w[0] == "ipcempty" and (d["r"] != "-11" or d["pc"] != "0" or d["type"] != "-"): return ("ipc-empty", o)
+            if w[0] == "ipcwcb": return ("ipc-error", o)
+        if gots != len(kinds) or not any(o.startswith("ipcbigdone") for o in out): return ("ipc-lost", f"sent {len(kinds)} claimed {gots}")
+        return wcheck_monitor(out)
     # --- IPC
     sent = [o for o in out if o.startswith("ipcsend")]
     if sent:
@@ -234,6 +274,10 @@ def model_diff(ctx, prog, out):
             w = o.split()
             if w[0] == "ipcread" and "n" in kv(o):
                 tr.append((f"recv - {k}:{sent[k]}", ("after", kv(o)))); k += 1
+            if w[0] == "bigread" and "pc" in kv(o):
+                new = min(int(kv(o)["pc"]), len(sent)) - k        # nothing is claimed while reading (late policy)
+                if new > 0:
+                    tr.append(("recv - " + " ".join(f"{j}:{sent[j]}" for j in range(k, k + new)), ("after", kv(o)))); k += new
             if w[0] == "ipcgot":
                 tr.append((f"accept {'U' if kv(o)['type'] == 'u' else 'S'} 0", ("got", kv(o))))
             if w[0] == "ipcempty":
@@ -252,6 +296,21 @@ def model_diff(ctx, prog, out):
                 if tag == "empty" and (md["r"] != d["r"] or md["pc"] != d["pc"]):
                     return f"ipc empty accept: impl {d} model {m}"
             prev = md
+    # sending side: every syscall of uv__write on the IPC pipe (which request, which descriptor attached, how much asked)
+    big = next((l for l in prog if l.startswith("ipcbig")), None)
+    if big:
+        kinds = big.split()[1]; payload = big.split()[2]
+        q, exp = [], []
+        for o in out:
+            w = o.split()
+            if w[0] == "ipcenq":
+                q.append(f"enq {payload} {w[1]}")
+            elif w[0] == "tx":
+                d = kv(o); q.append(f"sys {d['ret']}"); exp.append(f"req={d['req']} handle={d['handle']} asked={d['asked']}")
+        mo = [m for m in ctx.driver(["send"], "\n".join(q) + "\n").splitlines() if m.startswith("req=") or m == "bad-op"]
+        if mo != exp:
+            k = next((i for i in range(min(len(mo), len(exp))) if mo[i] != exp[i]), min(len(mo), len(exp)))
+            return f"uv__write syscall {k}: impl `{exp[k] if k < len(exp) else None}` model `{mo[k] if k < len(mo) else None}`; {big}"
     # refusal table
     wl = [o.split() for o in out if o.startswith("wcheck")]
     if wl:
@@ -333,8 +392,10 @@ def one(ctx, exe, prog, meta, diff=True):
     ctx.validated()
     deferred = sum(1 for o in out if o.startswith("accept") and " seq=" in o and "r=0" in o) > 0 and any(l.startswith("accept") or l.startswith("drain") for l in prog)
     bigq = any(o.startswith("ipcafterread") and int(kv(o)["pc"]) > 8 for o in out)
+    partial = sum(1 for o in out if o.startswith("tx ") and 0 <= int(kv(o)["ret"]) < int(kv(o)["asked"]))
+    ctx.notes["sim_partial_sends_with_handle_requests"] = ctx.notes.get("sim_partial_sends_with_handle_requests", 0) + partial
     failed = any(o.startswith("final") and kv(o)["status"] != "0" for o in out)
-    if deferred or bigq or failed:
+    if deferred or bigq or failed or partial:
         ctx.nontrivial("S" + hashlib.sha1("\n".join(out).encode()).hexdigest()[:12])
     for k, v in (("sim_deferred_accept_cases", deferred), ("sim_ipc_queue_gt8_cases", bigq), ("sim_failed_connect_cases", failed),
                  ("sim_accept4_faults_fired", sum(1 for o in out if o.startswith("accept4 injected")))):
@@ -350,6 +411,8 @@ FIXED = [
     (["server 0 un defer", "uvc 0 0", "run 2", "accept 0", "uvc 1 0", "run 2", "drain 0", "end"], {0}),
     (["server 0 t6 imm", "inject 24", "raw 0 0", "raw 1 0", "run 2", "raw 2 0", "run 2", "inject 23", "raw 3 0", "run 2", "raw 4 0", "run 2", "end"], set()),
     (["dblconnect 100 101", "run 3", "end"], set()),
+    (["ipcbig tpu 10 4 -11 3 0 2 2", "end"], set()),
+    (["ipcbig tp 300000", "end"], set()),
     (["badconnect 100 tcp", "badconnect 101 pipe", "badconnect 102 long", "badconnect 103 longnt", "badconnect 104 tcp close", "badconnect 105 pipe close", "run 3", "wcheck", "end"], set()),
 ]
 
